@@ -108,7 +108,8 @@ def _load(key: str) -> bytes:
     raise ValueError(src)
 
 
-SYNTH_EXT = {"rtf-big-picture": ".rtf", "mbox-raw-8bit-headers": ".mbox", "7z-huge-file-count": ".7z", "7z-huge-stream-count": ".7z", "zip-huge-entry-count": ".zip"}
+SYNTH_EXT = {"rtf-big-picture": ".rtf", "mbox-raw-8bit-headers": ".mbox", "7z-huge-file-count": ".7z", "7z-huge-stream-count": ".7z", "zip-huge-entry-count": ".zip",
+             "zip-ascii-then-nonascii": ".zip", "mbox-ascii-then-nonascii": ".mbox"}
 
 
 def _synthetic(name: str) -> bytes:
@@ -120,6 +121,19 @@ def _synthetic(name: str) -> bytes:
         small = b"\x89PNG\r\n\x1a\n" + rng.randbytes(2_000)
         pics = "".join("{\\pict\\pngblip\\picw10\\pich10 " + d.hex() + "}" for d in (big, small))
         return ("{\\rtf1\\ansi\\ansicpg1252\\deff0{\\fonttbl{\\f0 Helvetica;}}\\pard qb00001z big picture\\par " + pics + "\\pard qb00002z\\par}").encode("ascii")
+    if name == "zip-ascii-then-nonascii":
+        import io as _io, zipfile as _zf
+        buf = _io.BytesIO()
+        with _zf.ZipFile(buf, "w") as z:
+            z.writestr("a-notes.txt", "qb00001z meeting notes, plain ASCII\n")
+            z.writestr("b-prices.txt", "qb00002z the price is 5 \u20ac\n".encode("utf-8"))
+            z.writestr("c-cjk.md", "# qb00003z \u6f22\u5b57\n".encode("utf-8"))
+        return buf.getvalue()
+    if name == "mbox-ascii-then-nonascii":
+        def m(i, body):
+            return ("From s%d@example.org Mon Jan  1 0%d:00:00 2024\nFrom: s%d@example.org\nTo: r@example.org\nSubject: qs0000%dz message %d\nMessage-ID: <m%d@example.org>\n"
+                    "MIME-Version: 1.0\nContent-Type: text/plain; charset=utf-8\nContent-Transfer-Encoding: 8bit\n\n%s\n\n" % (i, i, i, i, i, i, body)).encode("utf-8")
+        return m(1, "qb00001z plain ASCII body") + m(2, "qb00002z price 5 \u20ac") + m(3, "qb00003z \u6f22\u5b57")
     if name == "mbox-raw-8bit-headers":
         # raw 8-bit bytes (unencoded UTF-8 / Latin-1) in every header a reader copies into its result
         def msg(i, enc):
